@@ -64,7 +64,7 @@ Print Assumptions c13_session_answered.
     field layout and the closing ReadyForQuery are right. *)
 Theorem c13_replies_wellformed : forall r, reply_ok r ->
   decode_reply (encode r) = Some r /\ ends_with_rfq (encode r) = true.
-Proof. intros r H. split; [exact (reply_roundtrip r H) | exact (reply_ends_rfq r H)]. Qed.
+Proof. exact replies_wellformed. Qed.
 Print Assumptions c13_replies_wellformed.
 
 (** SHOW reports what the preceding SETs established, after ANY sequence of commands
@@ -173,9 +173,6 @@ Definition session : list input :=
   [ (SetShard, B "3", 0); (SetShard, B "7", 0); (SetShard, B "99999999999999999999999", 0); (SetShard, B "aNy", 4);
     (SetShardingKey, B "12", 2); (SetShardingKey, B "9223372036854775808", 1);
     (SetServerRole, B "Replica", 0); (SetServerRole, B "AUTO", 0); (SetPrimaryReads, B "off", 0); (ShowShard, [], 0) ].
-
-Lemma rec_by : forall (i : input) s, classify s = Some (fst (fst i), snd (fst i)) -> recognised i.
-Proof. intros i s H. exists s. exact H. Qed.
 
 Ltac ok_by s := split; [apply (rec_by _ (B s)); vm_compute; reflexivity | split; vm_compute; reflexivity].
 
